@@ -29,6 +29,11 @@ var (
 	xmpRootCloseTag = [...]byte{'<', '/', 'x', ':', 'x', 'm', 'p', 'm', 'e', 't', 'a', '>'}
 )
 
+// isSpace reports whether c is XML white space (space, tab, carriage return, line feed).
+func isSpace(c byte) bool {
+	return c == ' ' || c == '\n' || c == '\t' || c == '\r'
+}
+
 type xmpReader struct {
 	r *bufio.Reader
 	a bool
@@ -96,10 +101,23 @@ func (br *xmpReader) readAttribute(tag *Tag) (attr Attribute, err error) {
 	attr.pt = attrPType
 	attr.parent = tag.self
 
-	// Attribute Name
-	if buf, err = br.Peek(maxTagHeaderSize); err != nil {
-		err = errors.Wrap(err, "Attr")
-		return
+	// Attribute Name: skip the white space in front of it, however long
+	for {
+		if buf, err = br.Peek(maxTagHeaderSize); err != nil {
+			err = errors.Wrap(err, "Attr")
+			return
+		}
+		n := 0
+		for n < len(buf) && isSpace(buf[n]) {
+			n++
+		}
+		if n == 0 {
+			break
+		}
+		if _, err = br.Discard(n); err != nil {
+			err = errors.Wrap(err, "Attr (discard)")
+			return
+		}
 	}
 
 	var d int
@@ -204,7 +222,7 @@ end:
 	if buf[d] == '>' {
 		br.a = false // No Attributes
 		d++
-	} else if buf[d] == ' ' || buf[d] == '\n' { // Attributes
+	} else if isSpace(buf[d]) { // Attributes
 		br.a = true
 	} else if buf[d] == '/' && buf[d+1] == '>' { // SoloTag
 		br.a = false // No Attributes
@@ -235,7 +253,7 @@ func (br *xmpReader) readTagValue() (buf []byte, err error) {
 			}
 			// removes white space and new lines prefixes
 			for ; i < len(buf); i++ {
-				if buf[i] == ' ' || buf[i] == '\n' {
+				if isSpace(buf[i]) {
 					continue
 				}
 				break
@@ -349,7 +367,7 @@ func (br *xmpReader) readSeqTags(xmp *XMP, parent Tag) (err error) {
 func parseAttrName(buf []byte) (xmpns.Property, int, error) {
 	var a, b, c int
 	for ; a < len(buf); a++ {
-		if buf[a] == ' ' || buf[a] == '\n' {
+		if isSpace(buf[a]) {
 			continue
 		}
 		break
@@ -360,7 +378,7 @@ func parseAttrName(buf []byte) (xmpns.Property, int, error) {
 		}
 	}
 	for c = b + 2; c < len(buf); c++ {
-		if buf[c] == '=' || buf[c] == ' ' {
+		if buf[c] == '=' || isSpace(buf[c]) {
 			return xmpns.IdentifyProperty(buf[a:b], buf[b+1:c]), c, nil
 		}
 	}
@@ -375,7 +393,7 @@ func parseTagName(buf []byte) (xmpns.Property, int, error) {
 		}
 	}
 	for b = a + 1; b < len(buf); b++ {
-		if buf[b] == '>' || buf[b] == ' ' || buf[b] == '\n' || buf[b] == '/' {
+		if buf[b] == '>' || isSpace(buf[b]) || buf[b] == '/' {
 			return xmpns.IdentifyProperty(buf[:a], buf[a+1:b]), b, nil
 		}
 	}
